@@ -306,7 +306,7 @@ def e2e_case(args):
 HIST_PROFILE = {"ops": {"create": 6, "register": 8, "createKeyPair": 2, "deriveKey": 2, "get": 6, "getAttributes": 6,
                         "getAttributeList": 2, "modifyAttribute": 5, "setAttribute": 3, "deleteAttribute": 4,
                         "activate": 1, "revoke": 1, "destroy": 1, "locate": 1},
-                "groups": 0.5, "restart": 0.08, "attr_focus": True}
+                "groups": 0.5, "restart": 0.08, "attr_focus": True, "twins": 0.1}
 HIST_RULE = ("; histories: adaptive request sequences (creation with names / groups / application-specific "
              "information, reads, attribute operations on other objects, engine restarts) with a full store dump "
              "after every request, compared with the Lean engine model and checked by the stored-object monitor")
@@ -444,6 +444,9 @@ def concurrent_part(ctx):
     ctx.coverage["concurrent_workloads"] = k
     ctx.coverage["concurrent_successful_items"] = tot
     ctx.coverage["evaluations"] = (ctx.coverage.get("evaluations") or 0) + tot
+    # objects stored in / registered into database files an EARLIER run of the server wrote (corpus/legacy_db)
+    import legacy_db_check
+    legacy_db_check.hook(ctx, "c05")
 
 
 def search(ctx, broken):
@@ -451,6 +454,9 @@ def search(ctx, broken):
 
 
 def replay(ctx, rep):
+    import legacy_db_check
+    if legacy_db_check.is_mine(rep):
+        return legacy_db_check.replay(ctx, rep)
     r = rep.get("replay", rep)
     if r.get("kind") == "concurrent":
         bad = 0
